@@ -23,7 +23,8 @@ RULE = (
     "{none,0,1}) x every set of declared structs from {A (8 bits), B (72 bits)}, (C) <= 1 service x <= 2 devices listing "
     "subsets of {Svc, Ghost}; every struct gets its default binding; thorough enumerates each factor completely, quick "
     "a 1/50 sample of whole permutation groups. G2: Hypothesis full schemas through the real front end with 0-2 injected "
-    "rule violations at random positions. Each tree is verified under 3 configurations (general / +fcp_dbc / +fcp_can_c "
+    "rule violations at random positions. G3: generated module trees in which one module file is imported twice or through "
+    "a diamond (all its declarations appear twice, with identical source positions). Each tree is verified under 3 configurations (general / +fcp_dbc / +fcp_can_c "
     "checks). Oracle: verify().is_ok() == reference predicate (three-valued for the plug-in clauses where the statement "
     "is silent: non-CAN bindings, id-less bindings), an escaping exception counts as 'did not succeed'; the verdict is "
     "equal across all permutations of a declaration multiset. Non-trivial = exactly one violated rule, or none while near "
@@ -34,7 +35,7 @@ ASSUMPTIONS = [
     "G1 trees are built with the library's own node constructors (what the parser itself produces)",
     "plug-in clauses are three-valued: only CAN bindings with explicit ids / widths are pinned by the statement",
 ]
-FLOORS = {"one_violation": 0.05, "near_miss_pass": 0.02, "g2": 0.001, "config_dbc": 0.15, "config_can_c": 0.15}
+FLOORS = {"one_violation": 0.05, "near_miss_pass": 0.02, "g2": 0.001, "g3_twice": 0.0005, "g3_diamond": 0.0005, "config_dbc": 0.15, "config_can_c": 0.15}
 CONFIGS = ["general", "dbc", "can_c"]
 
 
@@ -344,8 +345,64 @@ def run_g2(ctx: Ctx) -> None:
     hyp_run(ctx, g2_case(), body, ctx.n(1200, 20000), tag="g2")
 
 
+@st.composite
+def g3_case(draw):
+    """Module trees in which one module file is reached twice (written twice, or through a diamond): every declaration
+    of that module is then present twice, with identical source positions."""
+    from vlib import modules as MO
+
+    cfg = S.SchemaCfg(types=S.TypeCfg(depth=1, strings=False, dyn=False, opt=False, max_arr=2, max_width=16),
+                      max_fields=3, enum_max_bits=8)
+    tree = draw(MO.module_tree(2, False, cfg))
+    mods = [d for d in tree.decls if isinstance(d, M.Mod)]
+    kind = "none"
+    if mods and draw(st.integers(0, 3)) != 0:
+        m = draw(st.sampled_from(mods))
+        if draw(st.booleans()):
+            kind = "twice"
+            tree.decls.insert(draw(st.integers(tree.decls.index(m) + 1, len(tree.decls))), M.Mod(list(m.path), m.schema))
+        else:
+            kind = "diamond"
+            # a second module next to the first one that imports the same file again
+            sib = M.Schema([M.Mod([m.path[-1]], m.schema)])
+            side = M.Mod(list(m.path[:-1]) + ["dia" + m.path[-1]], sib)
+            tree.decls.insert(draw(st.integers(tree.decls.index(m) + 1, len(tree.decls))), side)
+    return tree, kind
+
+
+def run_g3(ctx: Ctx) -> None:
+    from vlib import modules as MO
+
+    rec = ctx.rec
+
+    def body(c: Any) -> None:
+        tree, kind = c
+        with MO.Scratch("verif-c09-") as sc:
+            rec.frontend_attempts += 1
+            fcp, root, err = frontend.parse_schema_files(tree, sc.dir, "main.fcp")
+            if fcp is None:
+                rec.rejected_by_frontend += 1
+                return
+            t = SV.tree_of_model(tree)
+            files = MO.files_of(tree)
+            for config in CONFIGS:
+                msg, want, ok, reasons = compare(t, fcp, config)
+                rec.eval()
+                cl = classify_tree(t, want, reasons)
+                rec.cls("g3", "g3_" + kind, "config_" + config, "want_" + want, *cl)
+                if kind != "none":
+                    rec.nt([files, config])
+                    rec.sample({"files": files, "import": kind, "config": config, "specification": want, "verify_ok": ok})
+                if msg:
+                    raise Violation(f"module imported {kind}: " + msg, {"kind": "g3", "tree_pickle": pickle_b64(tree), "files": files,
+                                                                      "config": config})
+
+    hyp_run(ctx, g3_case(), body, ctx.n(600, 8000), tag="g3")
+
+
 def run_shard(ctx: Ctx) -> None:
     run_g2(ctx)
+    run_g3(ctx)
     try:
         run_g1(ctx)
     except Violation as v:
@@ -363,6 +420,16 @@ def replay(c: Dict[str, Any]) -> Optional[str]:
             "devices": [(a, None if b is None else list(b)) for a, b in t["devices"]],
         }
         msg, *_ = compare(t, build_real(t), c["config"])
+        return msg
+    if c["kind"] == "g3":
+        from vlib import modules as MO
+
+        tree = unpickle_b64(c["tree_pickle"])
+        with MO.Scratch("verif-c09-") as sc:
+            fcp, root, err = frontend.parse_schema_files(tree, sc.dir, "main.fcp")
+            if fcp is None:
+                raise HarnessError(f"front end rejects the replay tree: {err}")
+            msg, *_ = compare(SV.tree_of_model(tree), fcp, c["config"])
         return msg
     s = unpickle_b64(c["schema_pickle"])
     fcp, text, err = frontend.parse_schema(s)
